@@ -188,6 +188,41 @@ def fam_collections(ctx, rng):
         ctx.violation('bounding_extents:rotated', 'extents (%r,%r) expected (%r,%r) in the frame rotated by %r' % (w, h, ew, eh, ang), desc)
 
 
+def fam_mixed(ctx, rng):
+    """collections that mix 2D and 3D members in every order (2D members count as lying in z = 0): bounding_box,
+    bounding_box_extents and bounding_domain_z_2d_safe give the hull of the member boxes whatever the order"""
+    n3, n2 = rng.randint(1, 4), rng.randint(1, 3)
+    objs = [Bd.make(rng, rng.choice(['Polyline3D', 'Face3D', 'Polyface3D', 'Mesh3D', 'Sphere', 'LineSegment3D'])) for _ in range(n3)]
+    objs += [Bd.make(rng, rng.choice(['Polygon2D', 'Polyline2D', 'Mesh2D', 'LineSegment2D'])) for _ in range(n2)]
+    if rng.random() < 0.5:
+        # every 3D member on one side of z = 0, so that the 2D members decide one end of the range
+        dz = max(abs(o.min.z) + abs(o.max.z) for o in objs[:n3]) + 1.0
+        sg = rng.choice([1, -1])
+        objs[:n3] = [o.move(V3((0.0, 0.0, sg * dz))) for o in objs[:n3]]
+    rng.shuffle(objs)
+    is2 = [not hasattr(o.min, 'z') if hasattr(o, 'min') else not hasattr(o, 'z') for o in objs]
+    def box(o):
+        mn, mx = (o.min, o.max) if hasattr(o, 'min') else (o, o)
+        return (mn.x, mx.x), (mn.y, mx.y), ((mn.z, mx.z) if hasattr(mn, 'z') else (0.0, 0.0))
+    bx = [box(o) for o in objs]
+    ex = (min(b[0][0] for b in bx), max(b[0][1] for b in bx)); ey = (min(b[1][0] for b in bx), max(b[1][1] for b in bx))
+    ez = (min(b[2][0] for b in bx), max(b[2][1] for b in bx))
+    desc = {'objects': [o.to_dict() for o in objs], 'order_2d_flags': is2}
+    ctx.count('collection.mixed', key=(n3, n2, tuple(is2)), sample={'n3d': n3, 'n2d': n2, 'order': is2}, nontrivial=True)
+    try:
+        gz = Bn.bounding_domain_z_2d_safe(objs)
+        mn, mx = Bn.bounding_box(objs)
+        w, h, zz = Bn.bounding_box_extents(objs)
+    except Exception as e:
+        ctx.violation('mixed:raises', '%r' % (e,), desc); return
+    if tuple(gz) != ez:
+        ctx.violation('bounding_domain_z_2d_safe:hull', 'z domain %r, hull of the member boxes %r (2D members first: %r)' % (gz, ez, is2[0]), desc); return
+    if (mn.x, mx.x) != ex or (mn.y, mx.y) != ey or (mn.z, mx.z) != ez:
+        ctx.violation('bounding_box:mixed:hull', 'box %r %r differs from the hull x %r y %r z %r' % (mn, mx, ex, ey, ez), desc); return
+    if abs(zz - (ez[1] - ez[0])) > 1e-9 * max(1.0, ez[1] - ez[0]) or abs(w - (ex[1] - ex[0])) > 1e-9 * max(1.0, w) or abs(h - (ey[1] - ey[0])) > 1e-9 * max(1.0, h):
+        ctx.violation('bounding_box_extents:mixed', 'extents %r expected %r' % ((w, h, zz), (ex[1] - ex[0], ey[1] - ey[0], ez[1] - ez[0])), desc)
+
+
 def fam_overlap(ctx, rng):
     d3 = rng.random() < 0.4
     a = Bd.make(rng, 'Polyface3D' if d3 else 'Polygon2D')
@@ -230,7 +265,7 @@ def fam_overlap(ctx, rng):
         ctx.violation('overlap:gap_test', 'overlap %r but exact gaps %r vs distance %r' % (r1, [float(g) for g in gaps], dist), desc)
 
 
-FAMILIES = [(fam_boxes, 150), (fam_arc_grid, 80), (fam_collections, 30), (fam_overlap, 70)]
+FAMILIES = [(fam_boxes, 150), (fam_arc_grid, 80), (fam_collections, 30), (fam_mixed, 30), (fam_overlap, 70)]
 
 
 def explore(ctx):
